@@ -67,6 +67,8 @@ BODIES = [
     # 9: from inside an own action, re-enter the shared action's context (displaces a different
     # action in every worker)
     [["a", 0, [["c", []]]]],
+    # 10: enter (with) an action that the spawning thread started and handed over, with work before and after
+    [["m"], ["j", [["m"]]], ["m"]],
 ]
 
 
@@ -141,6 +143,21 @@ class Worker(object):
                         self.stack.pop()
                         self.refstack.pop()
                 self.check("after-exit-shared-context")
+            elif st[0] == "j":
+                job, node = self.job, self.job_node
+                with job:
+                    self.stack.append(job)
+                    self.refstack.append(node[3])
+                    self.check("after-enter-handed-over-action")
+                    try:
+                        self.run_sync(st[1], point)
+                        point()
+                        self.check("before-exit-handed-over-action")
+                    finally:
+                        self.stack.pop()
+                        self.refstack.pop()
+                node[2] = "succeeded"
+                self.check("after-exit-handed-over-action")
             elif st[0] in ("a", "t"):
                 lab = self.label()
                 node = ["a", lab, None, []]
@@ -243,6 +260,7 @@ def thread_harnesses(tier):
         out.append([["raw", 5], ["pc", 6]])
     out.append([["raw", 4, "seed"], ["raw", 4, "seed"]])
     out.append([["raw", 1, "seed"], ["raw", 0, "seed"]])
+    out += [[["raw", 10], ["raw", 0]], [["raw", 10], ["pc", 1]]]
     out += [[["ctx", 0], ["raw", 1]], [["ctx", 1], ["pc", 0]], [["ctx", 7], ["raw", 0]], [["ctx", 2], ["ctx", 4]]]
     three = [[["raw", 0], ["pc", 0], ["raw", 4]]]
     if tier == "thorough":
@@ -338,7 +356,7 @@ def ref_nodes(nodes):
         if n[0] == "m":
             out.append(["m", n[1]])
         else:
-            out.append(["a", "w:act", n[1], n[2], ref_nodes(n[3])])
+            out.append(["a", n[4] if len(n) > 4 else "w:act", n[1], n[2], ref_nodes(n[3])])
     return out
 
 
@@ -351,6 +369,7 @@ def run_threads(harness):
         problems = []
         workers = []
         box = {}
+        jobs = []
 
         def main():
             me = Worker("M", None, problems)
@@ -383,6 +402,11 @@ def run_threads(harness):
                             w.run_sync(BODIES[bi], lambda: s.point(("op", w.name)))
 
                         fn = preserve_context(inner)
+                    if any(st[0] == "j" for st in BODIES[bi]):
+                        # started here (a child of A), entered by the worker
+                        w.job = start_action(action_type="w:job", who=name + ".job")
+                        w.job_node = ["a", name + ".job", None, [], "w:job"]
+                        jobs.append(w.job_node)
                     workers.append((kind, w))
                     t = thr.CoopThread(target=fn, name=name)
                     threads.append(t)
@@ -408,6 +432,7 @@ def run_threads(harness):
                 "msgs": list(seen),
                 "problems": list(problems),
                 "workers": [(k, w.name, w.forest, w.tasks) for k, w in workers],
+                "jobs": list(jobs),
                 "done": box.get("done", False),
             }
 
@@ -427,7 +452,7 @@ def run_threads(harness):
                 a_children.extend(ref_nodes(forest))
             else:
                 remote.append(["a", "eliot:remote_task", None, "succeeded", ref_nodes(forest)])
-        a_children = remote + a_children + [["m", "M.1"], ["m", "M.2"]]
+        a_children = remote + a_children + ref_nodes(obs.get("jobs", [])) + [["m", "M.1"], ["m", "M.2"]]
         a_children.sort(key=lambda x: json.dumps(x))
         top.append(["a", "main:A", "A", "succeeded", a_children])
         top.sort(key=lambda x: json.dumps(x))
